@@ -654,6 +654,32 @@ fn boundary_checks(cx: &mut Ctx, s: &dyn DynSampler, rng: &mut impl Rng, max_sub
     }
 }
 
+/// Gamma coordinate shared by the last call of a line and the first call of the next one
+const HANDOVER: f64 = 0.4375;
+
+/// builds the same graph for another D and drops the result (a rejected or panicking build is as good a history as an accepted one)
+pub fn prime_other_d(spec: &crate::dynsampler::GraphSpec, sig: &[Vec<isize>], d: usize, idx: u64, sm: &mut Summary) {
+    let other = if idx % 2 == 0 { if d > 1 { d - 1 } else { d + 1 } } else if d < 8 { d + 1 } else { d - 1 };
+    let out = build(spec, sig.to_vec(), other);
+    sm.count(match out { BuildOut::Ok(_) => "primed_other_d_ok", _ => "primed_other_d_rejected" });
+}
+
+/// a copy of `rows` whose outer buffer sits, if the allocator cooperates, at address `addr` (a block released just before)
+pub fn steered_signature(addr: usize, rows: &[Vec<isize>], sm: &mut Summary) -> Vec<Vec<isize>> {
+    let mut parked: Vec<Vec<Vec<isize>>> = vec![];
+    let mut slot: Option<Vec<Vec<isize>>> = None;
+    for _ in 0..64 {
+        let c: Vec<Vec<isize>> = Vec::with_capacity(rows.len());
+        if c.as_ptr() as usize == addr { slot = Some(c); break; }
+        parked.push(c);
+    }
+    sm.count(if slot.is_some() { "signature_block_reused" } else { "signature_block_not_reused" });
+    let mut out = slot.unwrap_or_else(|| Vec::with_capacity(rows.len()));
+    out.extend(rows.iter().cloned());
+    drop(parked);
+    out
+}
+
 pub fn run(lines: &[Value], opts: &SampleOpts) -> Summary {
     let mut sm = Summary::default();
     for (li, inst) in lines.iter().enumerate() {
@@ -665,6 +691,9 @@ pub fn run(lines: &[Value], opts: &SampleOpts) -> Summary {
         let spec = line.g.to_spec_messy(&map, &[], &mut rng);
         let mut samplers: Vec<Box<dyn DynSampler>> = vec![];
         let mut okb = true;
+        // history: the bit-identical graph is first built (and dropped) for ANOTHER space-time dimension in this process;
+        // what that build left behind must not reach the samplers built below
+        prime_other_d(&spec, &line.routings[0].0, line.d, idx, &mut sm);
         for (sig, _) in &line.routings {
             match build(&spec, sig.clone(), line.d) {
                 BuildOut::Ok(s) => samplers.push(s),
@@ -694,6 +723,9 @@ pub fn run(lines: &[Value], opts: &SampleOpts) -> Summary {
                 sm.count("spread_points");
             }
         }
+        // history across samplers: the last call of the previous line and the first call of this one carry the bit-identical
+        // Gamma coordinate (the samplers differ, in general also their degree of divergence)
+        if let Some(p0) = pts.first_mut() { if p0.x.len() > 2 * line.e - 2 { p0.x[2 * line.e - 2] = HANDOVER; } }
         let mut cx = Ctx { line: &line, inst, idx, sm: &mut sm };
         // history twins: the same point again with its Box-Muller coordinates permuted (a <-> b inside every pair, and the
         // pairs reversed): what was computed for the previous point must not be reused for this one
@@ -722,6 +754,22 @@ pub fn run(lines: &[Value], opts: &SampleOpts) -> Summary {
                 cx.sm.count("routing_pairs_compared");
                 if !close(a.0, b.0, tol) || !close(a.1, b.1, tol) || !close(a.2, b.2, tol * 10.0) {
                     cx.viol("C09", format!("u, v, jacobian depend on the routing: routing {} gives ({}, {}, {}), routing {} gives ({}, {}, {})", ra, a.0, a.1, a.2, rb, b.0, b.1, b.2), *rb, &pt.x, json!({}));
+                }
+            }
+        }
+        // history: use - drop - rebuild.  A sampler with routing A is used and dropped; the next one (another routing of the same shape)
+        // is built with its signature in the heap block the first one released, as a loop over graphs does naturally
+        if line.routings.len() >= 2 && !pts.is_empty() {
+            let (ia, ib) = ((idx as usize) % line.routings.len(), (idx as usize + 1) % line.routings.len());
+            let sig_a = line.routings[ia].0.clone();
+            let addr = sig_a.as_ptr() as usize;
+            if let BuildOut::Ok(sa) = build(&spec, sig_a, line.d) {
+                check_point(&mut cx, sa.as_ref(), cached_spec, ia, &pts[0], None);
+                drop(sa);
+                let sig_b = steered_signature(addr, &line.routings[ib].0, cx.sm);
+                if let BuildOut::Ok(sb) = build(&spec, sig_b, line.d) {
+                    cx.sm.count("drop_rebuild_histories");
+                    for pt in pts.iter().take(3) { check_point(&mut cx, sb.as_ref(), cached_spec, ib, pt, None); }
                 }
             }
         }
@@ -757,6 +805,15 @@ pub fn run(lines: &[Value], opts: &SampleOpts) -> Summary {
                 }
             }
         }
+        // hand-over call (see above): the last call made with this line's samplers
+        {
+            let mut ph = make_point(&line, dim, None, &mut rng, 0);
+            if ph.x.len() > 2 * line.e - 2 { ph.x[2 * line.e - 2] = HANDOVER; }
+            let mut cx = Ctx { line: &line, inst, idx, sm: &mut sm };
+            let ri = samplers.len() - 1;
+            check_point(&mut cx, samplers[ri].as_ref(), cached_spec, ri, &ph, None);
+            cx.sm.count("handover_calls");
+        }
     }
     sm
 }
@@ -784,7 +841,9 @@ pub fn run_sector(lines: &[Value], seed: u64, base_idx: u64, points: usize) -> S
         }).collect();
         if steer.iter().any(|s| s.is_none()) { sm.count("unsteerable"); continue; }
         let map = g.label_map(&mut rng, false);
-        let s = match build(&g.to_spec_messy(&map, &[], &mut rng), cycle_basis(&g.edges), g.d) { BuildOut::Ok(s) => s, o => {
+        let gspec = g.to_spec_messy(&map, &[], &mut rng);
+        prime_other_d(&gspec, &cycle_basis(&g.edges), g.d, idx, &mut sm);
+        let s = match build(&gspec, cycle_basis(&g.edges), g.d) { BuildOut::Ok(s) => s, o => {
             sm.violation("C05", format!("build of an accepted graph gave {}", o.name()), json!({"line": inst, "idx": idx}), json!({})); continue; } };
         if li < 2 { sm.sample(inst.clone()); }
         if e >= 3 { sm.nontrivial += 1; }
